@@ -132,12 +132,15 @@ type Server struct {
 	Dir      string
 	TS       *httptest.Server
 	shutdown io.Closer
+	mux      *capMux
 	HC       *http.Client // raw protocol requests
 	Client   *client.Client
 	// Requests counts HTTP requests issued through HC (raw) for the evidence.
 	Requests int64
 	// Served counts every request that reached the server (atomic).
 	Served int64
+	// busy: the sync handler could not be seen idle; its queue is then left open.
+	busy bool
 }
 
 // NewServer builds the server exactly the way perkeepd does: high-level JSON
@@ -167,7 +170,8 @@ func NewServer(c Conf, warm bool) (*Server, error) {
 	if err != nil {
 		return nil, fmt.Errorf("serverinit.Load: %w", err)
 	}
-	mux := http.NewServeMux()
+	mux := &capMux{ServeMux: http.NewServeMux(), handlers: map[string]http.Handler{}}
+	s.mux = mux
 	ts := httptest.NewUnstartedServer(http.HandlerFunc(func(w http.ResponseWriter, r *http.Request) {
 		atomic.AddInt64(&s.Served, 1)
 		mux.ServeHTTP(w, r)
@@ -218,7 +222,13 @@ func (s *Server) Do(req *http.Request) (*http.Response, error) {
 // quiesce waits until the sync-to-index handler reports nothing left to copy,
 // so that closing the index below cannot race with a background copy.
 func (s *Server) quiesce() {
-	deadline := time.Now().Add(5 * time.Second)
+	s.busy = true
+	defer func() {
+		if r := recover(); r != nil {
+			s.busy = true
+		}
+	}()
+	deadline := time.Now().Add(20 * time.Second)
 	for time.Now().Before(deadline) {
 		req, _ := http.NewRequestWithContext(context.Background(), "GET", s.URL("/status/status.json"), nil)
 		resp, err := s.Do(req)
@@ -242,6 +252,7 @@ func (s *Server) quiesce() {
 			}
 		}
 		if !busy {
+			s.busy = false
 			return
 		}
 		time.Sleep(2 * time.Millisecond)
@@ -263,6 +274,11 @@ func (s *Server) Close() {
 	}
 	if s.shutdown != nil {
 		s.shutdown.Close()
+	}
+	if s.mux != nil && !s.busy {
+		for _, c := range s.mux.leakedClosers() {
+			c.Close()
+		}
 	}
 	os.RemoveAll(s.Dir)
 }
